@@ -484,3 +484,9 @@ mod tests {
         assert!(train_sim.loco_con.state.i > 1);
     }
 }
+
+// Verification hook (inert unless built with `--cfg nrel_altrios_verif` or under `cargo kani`).
+#[cfg(any(kani, nrel_altrios_verif))]
+mod verif_hook {
+    include!(concat!(env!("NREL_ALTRIOS_VERIF_DIR"), "/hooks/train__set_speed_train_sim.rs"));
+}
